@@ -34,6 +34,16 @@ def pick_phase(rng) -> float:
     return float(rng.uniform(-4 * math.pi, 4 * math.pi))
 
 
+def pick_seed(rng) -> int:
+    """A random seed; boundary values (0, 1, 2**32-1) are legal seeds and are used often."""
+    r = rng.random()
+    if r < 0.12:
+        return 0
+    if r < 0.16:
+        return int(rng.choice([1, 2 ** 31 - 1, 2 ** 32 - 1]))
+    return int(rng.integers(1 << 30))
+
+
 def two_modes(rng, n: int, adjacent_p: float = 0.4):
     a = int(rng.integers(n))
     if rng.random() < adjacent_p and n > 1:
